@@ -44,6 +44,14 @@ class CallSite:
                f"{[c.short for c in self.callees] + self.ext} [{self.kind}]>"
 
 
+# positional parameter order of a few external callables the rules look at (so that `hmac.new(k, m, digestmod=h)` and `hmac.new(k, m, h)` are one spelling)
+EXTERNAL_POSITIONAL = {
+    "hmac.new": ["key", "msg", "digestmod"],
+    "base64.b64decode": ["s", "altchars"],
+    "int.from_bytes": ["bytes", "byteorder"],
+}
+
+
 class CallGraph:
     def __init__(self, prog: Program, types: Types):
         self.prog = prog
@@ -74,8 +82,14 @@ class CallGraph:
         for fn, sites in self.sites.items():
             for s in sites:
                 call = s.node
-                if not isinstance(call, ast.Call) or not call.keywords or not s.callees or s.ext or any(isinstance(a, ast.Starred) for a in call.args) \
-                        or any(k.arg is None for k in call.keywords):
+                if not isinstance(call, ast.Call) or not call.keywords or any(isinstance(a, ast.Starred) for a in call.args) or any(k.arg is None for k in call.keywords):
+                    continue
+                if s.ext and not s.callees and len(s.ext) == 1 and s.ext[0] in EXTERNAL_POSITIONAL:
+                    pos = EXTERNAL_POSITIONAL[s.ext[0]]
+                    while call.keywords and len(call.args) < len(pos) and call.keywords[0].arg == pos[len(call.args)]:
+                        call.args.append(call.keywords.pop(0).value)
+                    continue
+                if not s.callees or s.ext:
                     continue
                 orders = []
                 for c in s.callees:
